@@ -465,3 +465,198 @@ func errClass(err error) string {
 func dataID(i int) message.DataID {
 	return message.DataID{Name: fmt.Sprintf("d%d", i), Type: "ty"}
 }
+
+// --- downstream, metadata and call operations ---
+
+func (h *downH) OnDownstreamClosed(ev *iscp.DownstreamClosedEvent) {
+	s := curSim
+	s.mu.Lock()
+	e := "nil"
+	if ev.Err != nil {
+		e = ev.Err.Error()
+	}
+	h.ClosedEv = append(h.ClosedEv, e)
+	s.mu.Unlock()
+}
+
+func (h *downH) OnDownstreamResumed(ev *iscp.DownstreamResumedEvent) {
+	s := curSim
+	s.mu.Lock()
+	h.ResumedEv = append(h.ResumedEv, s.Now())
+	s.mu.Unlock()
+}
+
+func (y *Sys) openDownOp(spec downSpec) *Op {
+	h := &downH{Idx: len(y.Downs), Spec: spec}
+	y.Downs = append(y.Downs, h)
+	op := &Op{Name: "OpenDownstream", Args: fmt.Sprintf("d%d qos=%v sources=%v pre=%d ackflush=%v", h.Idx, spec.QoS, spec.Sources, len(spec.PreIDs), spec.AckFlush), Meta: h, Run: func(ctx context.Context) (any, error) {
+		var filters []*message.DownstreamFilter
+		for _, src := range spec.Sources {
+			filters = append(filters, message.NewDownstreamFilterAllFor(src))
+		}
+		opts := []iscp.DownstreamOption{
+			iscp.WithDownstreamQoS(spec.QoS),
+			iscp.WithDownstreamClosedEventHandler(h),
+			iscp.WithDownstreamResumedEventHandler(h),
+		}
+		if spec.AckFlush != 0 {
+			opts = append(opts, iscp.WithDownstreamAckFlushInterval(spec.AckFlush))
+		}
+		if len(spec.PreIDs) > 0 {
+			ids := make([]*message.DataID, len(spec.PreIDs))
+			for i := range spec.PreIDs {
+				id := spec.PreIDs[i]
+				ids[i] = &id
+			}
+			opts = append(opts, iscp.WithDownstreamDataIDs(ids))
+		}
+		d, err := y.Conn.OpenDownstream(ctx, filters, opts...)
+		if err != nil {
+			return nil, err
+		}
+		y.s.mu.Lock()
+		h.D = d
+		y.s.mu.Unlock()
+		return fmt.Sprintf("down %x", d.ID[12:]), nil
+	}}
+	op.OnDone = func(op *Op) {
+		if h.D != nil {
+			h.B = y.s.Broker.downByID(h.D.ID)
+		}
+	}
+	h.OpenOp = op
+	return op
+}
+
+func (y *Sys) readOp(h *downH) *Op {
+	op := &Op{Name: "ReadDataPoints", Args: fmt.Sprintf("d%d", h.Idx), Meta: h, Run: func(ctx context.Context) (any, error) {
+		c, err := h.D.ReadDataPoints(ctx)
+		if err != nil {
+			return nil, err
+		}
+		return c, nil
+	}}
+	h.Reads = append(h.Reads, op)
+	return op
+}
+
+func (y *Sys) readMetaOp(h *downH) *Op {
+	op := &Op{Name: "ReadMetadata", Args: fmt.Sprintf("d%d", h.Idx), Meta: h, Run: func(ctx context.Context) (any, error) {
+		m, err := h.D.ReadMetadata(ctx)
+		if err != nil {
+			return nil, err
+		}
+		return m, nil
+	}}
+	h.MetaReads = append(h.MetaReads, op)
+	return op
+}
+
+func (y *Sys) closeDownOp(h *downH) *Op {
+	op := &Op{Name: "Downstream.Close", Args: fmt.Sprintf("d%d", h.Idx), Meta: h, Run: func(ctx context.Context) (any, error) {
+		return nil, h.D.Close(ctx)
+	}}
+	if h.CloseOp == nil {
+		h.CloseOp = op
+	}
+	return op
+}
+
+type metaRec struct {
+	Op   *Op
+	Name string
+}
+
+func (y *Sys) sendMetaOp(name string) *Op {
+	rec := &metaRec{Name: name}
+	op := &Op{Name: "SendMetadata", Args: name, Meta: rec, Run: func(ctx context.Context) (any, error) {
+		return nil, y.Conn.SendMetadata(ctx, &message.BaseTime{SessionID: "sess", Name: name, Priority: 1, ElapsedTime: time.Second, BaseTime: time.Unix(1_700_000_000, 0).UTC()})
+	}}
+	rec.Op = op
+	return op
+}
+
+type callRec struct {
+	Op      *Op
+	Name    string
+	Payload string
+	Kind    string // call, reply, call-wait
+}
+
+func (y *Sys) sendCallOp(kind, name, payload, reqCallID string) *Op {
+	rec := &callRec{Name: name, Payload: payload, Kind: kind}
+	op := &Op{Name: "Send" + kind, Args: name, Meta: rec, Run: func(ctx context.Context) (any, error) {
+		switch kind {
+		case "call":
+			return y.Conn.SendCall(ctx, &iscp.UpstreamCall{DestinationNodeID: "peer", Name: name, Type: "t", Payload: []byte(payload)})
+		case "reply":
+			return y.Conn.SendReplyCall(ctx, &iscp.UpstreamReplyCall{RequestCallID: reqCallID, DestinationNodeID: "peer", Name: name, Type: "t", Payload: []byte(payload)})
+		default:
+			r, err := y.Conn.SendCallAndWaitReplayCall(ctx, &iscp.UpstreamCall{DestinationNodeID: "peer", Name: name, Type: "t", Payload: []byte(payload)})
+			if err != nil {
+				return nil, err
+			}
+			return r, nil
+		}
+	}}
+	rec.Op = op
+	return op
+}
+
+func (y *Sys) recvCallOp(reply bool) *Op {
+	if reply {
+		return &Op{Name: "ReceiveReplyCall", Run: func(ctx context.Context) (any, error) {
+			r, err := y.Conn.ReceiveReplyCall(ctx)
+			if err != nil {
+				return nil, err
+			}
+			return r, nil
+		}}
+	}
+	return &Op{Name: "ReceiveCall", Run: func(ctx context.Context) (any, error) {
+		r, err := y.Conn.ReceiveCall(ctx)
+		if err != nil {
+			return nil, err
+		}
+		return r, nil
+	}}
+}
+
+// flushLinks models a network without transit delay: everything written is seen by the
+// peer, everything the broker already decided to send is delivered. Broker decisions that
+// are still pending (manual replies) stay pending.
+func (y *Sys) flushLinks() int {
+	n := 0
+	for _, l := range y.s.Net.Links {
+		if !l.isDead {
+			n += l.IngestAll()
+		}
+	}
+	for _, l := range y.aliveLinks() {
+		n += l.DeliverAll()
+	}
+	y.s.Wait()
+	y.s.Harvest()
+	return n
+}
+
+// Advance moves the clock by d in quanta small enough that keepalive pings are always
+// answered in time on a healthy link (links are flushed between quanta).
+func (y *Sys) Advance(d time.Duration) {
+	q := y.PingTimeout / 2
+	if y.PingTimeout == 0 {
+		q = 500 * time.Millisecond
+	}
+	for d > 0 {
+		for y.flushLinks() > 0 {
+		}
+		step := d
+		if step > q {
+			step = q
+		}
+		y.s.Advance(step)
+		d -= step
+	}
+	for y.flushLinks() > 0 {
+	}
+}
